@@ -28,6 +28,7 @@ import SSEPyVerif.Proofs.Schemes.PiPtrComplete
 import SSEPyVerif.Proofs.Schemes.Pi2LevComplete
 import SSEPyVerif.Proofs.Schemes.DP17Room
 import SSEPyVerif.Proofs.Schemes.DP17Complete
+import SSEPyVerif.Proofs.Schemes.SSE2Complete
 namespace SSEPy.C01
 open SSEPy.Sch SSEPy.Sch.Chain
 
@@ -462,5 +463,30 @@ theorem DP17.setup_never_raises (raw : RawCfg) (cfg : DP17Cfg) (hcfg : DP17.cfgB
     (fun levels hlevels => by
       obtain ⟨hasc, hnn, hfits, hw⟩ := hlv levels hlevels
       exact ⟨hnn, fun p hp => DP17.findAdjacent_ok cfg levels p.2.length (by omega) hasc hnn (hfits p hp), hw⟩) e h
+
+/-- SSE-2, the WHOLE of C01 with no hypothesis about the run (SSE-2 draws no randomness in `EDBSetup` / `TokenGen`): for
+    an accepted configuration, a key half of `param_k` bytes and a valid database — distinct keywords without a leading
+    NUL byte and of at most `param_l` bytes, at most `param_n` identifiers per keyword, no identifier posted more than
+    `param_max` times — `EDBSetup` RETURNS, and for every stored keyword `TokenGen` RETURNS and `Search` yields exactly its
+    identifier list, in order.  Left: the leaf law (HMAC digest length).  The address arithmetic — the keyword fits its
+    `8·l`-bit field, every counter up to `param_n` fits the `bits(n + max)`-bit field because `determine_param_max` of a
+    positive size is positive, the PRP is called with the widths it was declared with — is proved, not assumed. -/
+theorem SSE2.correct (raw : RawCfg) (cfg : SSE2Cfg) (hcfg : SSE2.cfgBuild raw = .ok cfg) (lv : Leaves) (hl : LeafLaws lv)
+    (K1 : Bytes) (hK : (K1.length : Int) = cfg.k) (db : DB) (hkeys : (db.map (·.1)).Nodup)
+    (hvalid : ∀ p ∈ db, NoLeadingNul p.1 ∧ (p.1.length : Int) ≤ cfg.l ∧ p.2.length ≤ cfg.n.toNat)
+    (hcap : ∀ id, (db.flatMap (·.2)).count id ≤ cfg.max) :
+    ∃ I, SSE2.setup cfg lv K1 db = .ok I ∧
+      ∀ w ids, (w, ids) ∈ db → ∃ tk, SSE2.token cfg lv K1 w = .ok tk ∧ SSE2.search I tk = ids := by
+  obtain ⟨hu, hn, _⟩ := SSE2.cfgBuild_usable raw cfg hcfg
+  have hcap' : ∀ I0 cnt, SSE2.encDb cfg lv K1 db [] [] = .ok (I0, cnt) → ∀ p ∈ cnt, p.2 ≤ cfg.max := fun I0 cnt h p hp => by
+    have := SSE2.encDb_cnt cfg lv K1 db [] [] [] I0 cnt h (fun q hq => by cases hq) p hp
+    simp only [List.nil_append] at this
+    exact Nat.le_trans this (hcap p.1)
+  obtain ⟨I, hI⟩ := SSE2.setup_ok cfg lv hl.hmac_len hu K1 hK db
+    (fun p hp => ⟨(hvalid p hp).2.1, Nat.lt_of_le_of_lt (hvalid p hp).2.2 hn⟩) hcap'
+  refine ⟨I, hI, fun w ids hm => ?_⟩
+  obtain ⟨tk, htk, _⟩ := SSE2.token_ok cfg lv hl.hmac_len hu K1 w hK (hvalid _ hm).2.1 hn
+  exact ⟨tk, htk, SSE2.search_stored_valid cfg lv hl (by have := hu.lpos; omega) hu.bits K1 db I hI hkeys
+    (fun p hp => (hvalid p hp).1) hcap' w ids hm (hvalid _ hm).2.2 tk htk⟩
 
 end SSEPy.C01
